@@ -949,6 +949,7 @@ class Env:
         # side solver holding only the path-condition conjuncts over small (index-like) inputs;
         # used to simplify write-log reads (sound: it is weaker than the path condition)
         self._decided: dict = {}
+        self._inc_failed = 0
         self.small_vars: set = set()
         self.index_solver = z3.Solver()
         self.index_n = 0
@@ -1070,8 +1071,13 @@ class Env:
         full preprocessing pipeline (decides many multiplier queries the incremental core cannot)."""
         eng = self.engine
         t0 = time.perf_counter()
-        r = self.solver.check(*assumptions)
-        self._model_src = self.solver
+        if self._inc_failed >= 2:
+            r = z3.unknown  # the incremental core already gave up twice on this path
+        else:
+            r = self.solver.check(*assumptions)
+            self._model_src = self.solver
+            if r == z3.unknown:
+                self._inc_failed += 1
         if r == z3.unknown:
             s2 = z3.Solver()
             s2.set("timeout", eng.timeout_ms)
@@ -1409,7 +1415,7 @@ class PathResult:
 
 
 class Engine:
-    def __init__(self, timeout_ms: int = 30000, max_paths: int = 200000, want_models: int = 1, incremental_timeout_ms: int = 1500):
+    def __init__(self, timeout_ms: int = 30000, max_paths: int = 200000, want_models: int = 1, incremental_timeout_ms: int = 800):
         self.timeout_ms = timeout_ms
         self.incremental_timeout_ms = incremental_timeout_ms
         self.cut_on_undecided = False
